@@ -63,6 +63,13 @@ def processLine (line : String) : String :=
               s!"DIVERGE reload case={c}: {mids.length} observation points, model has {(writes Gen.reloadEvents).length} write sections"
             else if !mok || !(uniform ml 1) then s!"DIVERGE reload case={c}: model of reloadConfig does not reach the new version"
             else "ok"
+    | "twin" =>
+      let u := strs j "u"; let t := strs j "t"
+      let c := nat j "case"
+      if bool j "ok" then s!"PROP C18 failed-reload-reported-ok case={c} fail={str j "fail"} (twin)"
+      else if u != t then
+        s!"PROP C18 failed-reload-changed-stateful-behaviour case={c} fail={str j "fail"} step={firstDiff u t} untouched={u.getD (firstDiff u t) ""} after-failed-reload={t.getD (firstDiff u t) ""}"
+      else "ok"
     | "request" =>
       match (arr j "mix").head? with
       | some m => s!"PROP C18 request-straddles-reload case={nat j "case"} gate={str m "gate"} probe={str m "probe"} old={str m "old"} new={str m "new"} got={str m "got"}"
@@ -75,7 +82,10 @@ def processLine (line : String) : String :=
       let points := arr j "points"
       let fin := obj j "final"
       let d0 : Dir String := { target := old, temp := none }
-      if outcome == "rejected" || outcome == "error" then
+      let liveSame := !(has j "liveBefore") || str j "liveBefore" == str j "liveAfter"
+      if outcome != "applied" && !liveSame then
+        s!"PROP C18 failed-change-altered-running-config case={c} variant={variant} outcome={outcome} before={str j "liveBefore"} after={str j "liveAfter"}"
+      else if outcome == "rejected" || outcome == "error" then
         if points.isEmpty && optStr fin "target" == old && (strs fin "temps").isEmpty then "ok"
         else s!"PROP C18 rejected-change-touched-file case={c} variant={variant}"
       else
